@@ -144,7 +144,7 @@ def random_programs(ctx, count):
             n = rng.randint(0 if kind == "root" else 1, 260)
             rl = rng.choice(["dense", "gap", "ends"])
             p = {"kind": kind, "ver": rng.randint(1, 4), "n": n, "named": n if kind == "chain" else rng.randint(0, n), "lay": rl,
-                 "blocks": rng.choice([1, 2, 3]), "style": rng.choice(["norm", "raw"]), "ord": ord_, "probes": probe_list(rng, n, rl)}
+                 "blocks": rng.choice([1, 2, 3]), "style": rng.choice(["norm", "raw"]), "nnh": rng.choice(["flag", "plain"]), "ord": ord_, "probes": probe_list(rng, n, rl)}
             if kind == "chain":
                 p.update({"vp": vp, "kbc": rng.choice([1, 4]), "kbe": 1})
         else:
